@@ -9,13 +9,15 @@ An edit whose anchor text is absent in the current tree is skipped and counted.
 the corpus entry was written; not re-run by the checks).
 """
 
-def B(id, breaks, edits, silent=(), tests="survive", note=""):
+def B(id, breaks, edits, silent=(), tests="survive", note="", base=None):
+    """base: directory (relative to /verif) of a behaviour-preserving refactoring whose patch.diff is
+    applied first - the defect is then seeded into the refactored code."""
     return {"id": id, "kind": "break", "breaks": list(breaks), "edits": edits, "silent": list(silent),
-            "tests": tests, "note": note}
+            "tests": tests, "note": note, "base": base}
 
 
-def N(id, edits, props=None, note=""):
-    return {"id": id, "kind": "neutral", "edits": edits, "props": props, "note": note}
+def N(id, edits, props=None, note="", base=None):
+    return {"id": id, "kind": "neutral", "edits": edits, "props": props, "note": note, "base": base}
 
 
 import json as _json
@@ -890,4 +892,31 @@ def expand_password(data, num_bytes):
     key = sha256(transcript).digest()
     return key
 """)], note="+ instead of join"),
+
+    # ---- defects seeded into behaviour-preserving refactorings (seeded_neutral/): the generalised
+    # rules that accept the refactored code must still reject a defect written in its idiom
+    B("n02-handwritten-sort-one-branch-unsorted", ["C17", "C01"], [(SP, "        first_msg, second_msg = msg2, msg1\n", "        first_msg, second_msg = msg1, msg2\n")],
+      base="seeded_neutral/N02", tests="fail", note="hand-written sort that does not swap: the two ends hash the messages in different orders"),
+    B("n04-while-candidate-step-2", ["C14"], [(ED, "        y = (y + 1) % Q\n", "        y = (y + 2) % Q\n")],
+      base="seeded_neutral/N04", tests="fail", note="try-and-increment skips every other candidate"),
+    B("n04-zero-scalar-reaches-fast-ladder", ["C12", "C13"], [(ED, "        return Zero if s == 0 else self._scalarmult_nonzero(s)\n", "        return self._scalarmult_nonzero(s)\n")],
+      base="seeded_neutral/N04", note="private fast-path helper reached with s = 0"),
+    B("n05-safe-ladder-given-dedicated-addition", ["C12", "C05"], [(ED, "    return _scalarmult_ladder(pt, n, add_elements)\n", "    return _scalarmult_ladder(pt, n, _add_elements_nonunfied)\n")],
+      base="seeded_neutral/N05", note="higher-order ladder instantiated with the non-unified addition for arbitrary points"),
+    B("n05-precomputed-2d-wrong", ["C12"], [(ED, "_TWO_D = (2*d) % Q", "_TWO_D = d % Q")],
+      base="seeded_neutral/N05", tests="fail", note="precomputed curve constant is d, not 2d"),
+    B("n05-shared-tail-swaps-Z-T", ["C12"], [(ED, "            (F*G) % Q, # Z3\n            (E*H) % Q) # T3\n", "            (E*H) % Q, # Z3\n            (F*G) % Q) # T3\n")],
+      base="seeded_neutral/N05", tests="fail", note="the shared output helper of the three formulas returns Z and T swapped"),
+    B("n05-root-parity-flipped", ["C15", "C14"], [(ED, "    if x & 1: x = Q-x\n", "    if not x & 1: x = Q-x\n")],
+      base="seeded_neutral/N05", tests="fail", note="xrecover returns the odd root"),
+    B("n06-mask-one-bit-short", ["C11", "C04"], [(UT, "    top_byte_mask_int = 0xff >> unused_bits\n", "    top_byte_mask_int = 0x7f >> unused_bits\n")],
+      base="seeded_neutral/N06", note="shift-form mask keeps one bit too few: the upper half of the range is never drawn"),
+    B("n08-chained-range-check-loses-upper-bound", ["C05"], [(GR, "        if not 0 < i < self.p:   # Zp* excludes 0\n", "        if not 0 < i:   # Zp* excludes 0\n")],
+      base="seeded_neutral/N08", note="non-canonical residues i >= p accepted"),
+    B("n08-ctor-order-check-inert", ["C18"], [(GR, "        if pow(g, self.q, self.p) != 1:\n            raise AssertionError\n", "        if pow(g, self.q, self.p) != 1:\n            pass\n")],
+      base="seeded_neutral/N08", note="if/raise form of the generator-order assertion made inert"),
+    B("n01-transcript-x-y-keywords-swapped", ["C17", "C03"], [(SP, "X_msg=self.X_msg(), Y_msg=self.Y_msg(),", "X_msg=self.Y_msg(), Y_msg=self.X_msg(),")],
+      base="seeded_neutral/N01", tests="fail", note="keyword call binds X and Y to the wrong slots (both ends agree, published transcript differs)"),
+    B("n01-restore-forgets-started-flag", ["C08"], [(SP, "        self._started = True\n        xy_scalar_bytes = _from_hex", "        xy_scalar_bytes = _from_hex")],
+      base="seeded_neutral/N01", tests="fail", note="shared restore tail no longer marks the instance as started"),
 ]
